@@ -40,6 +40,8 @@ pub struct Cfg {
     pub hk: HKind,
     /// RawLRU only: build without an eviction callback
     pub no_cb: bool,
+    /// RawLRU, ctor 3: the cache is built by converting these keys (duplicates allowed)
+    pub init: Vec<u32>,
 }
 
 impl Cfg {
@@ -56,6 +58,7 @@ impl Cfg {
             ctor: 0,
             hk: HKind::Fnv,
             no_cb: false,
+            init: vec![],
         }
     }
     pub fn slru(prob: usize, prot: usize) -> Cfg {
@@ -117,7 +120,7 @@ impl Cfg {
     }
     pub fn to_text(&self) -> String {
         format!(
-            "{},{},{},{},{},{},{},{},{},{},{}",
+            "{},{},{},{},{},{},{},{},{},{},{},{}",
             self.kind.name(),
             self.a,
             self.b,
@@ -128,7 +131,8 @@ impl Cfg {
             self.kh.name(),
             self.ctor,
             self.hk.name(),
-            self.no_cb as u8
+            self.no_cb as u8,
+            self.init.iter().map(|k| k.to_string()).collect::<Vec<_>>().join("+")
         )
     }
     pub fn parse(s: &str) -> Option<Cfg> {
@@ -148,10 +152,12 @@ impl Cfg {
             ctor: p[8].parse().ok()?,
             hk: HKind::parse(p[9])?,
             no_cb: p[10] == "1",
+            init: p.get(11).map(|s| s.split('+').filter_map(|x| x.parse().ok()).collect()).unwrap_or_default(),
         })
     }
     pub fn describe(&self) -> String {
         let base = match self.kind {
+            Kind::Lru if self.ctor == 3 => format!("lru(converted from {:?}, via {})", self.init, ["From<Vec>", "collect()", "From<&[..]>"][self.a % 3]),
             Kind::Lru => format!("lru(cap={}{})", self.a, if self.no_cb { ",nocb" } else { "" }),
             Kind::Slru => format!("slru(prob={},prot={})", self.a, self.b),
             Kind::TwoQ => format!("twoq(size={},rr={},gr={})", self.a, self.rr, self.gr),
@@ -596,7 +602,53 @@ where
     } else {
         tr.fused_ok = true;
     }
-    tr.final_count = it.count();
+    match spec.fin {
+        1 => {
+            tr.final_count = it.len();
+            tr.fin_item = it.last().map(|t| {
+                let r = conv(t, None);
+                (r.0, r.1)
+            });
+        }
+        2 => {
+            tr.final_count = it.len();
+            tr.fin_item = it.nth(1).map(|t| {
+                let r = conv(t, None);
+                (r.0, r.1)
+            });
+            tr.fin_n = it.len();
+        }
+        3 => {
+            tr.final_count = it.len();
+            tr.fin_item = it.nth_back(1).map(|t| {
+                let r = conv(t, None);
+                (r.0, r.1)
+            });
+            tr.fin_n = it.len();
+        }
+        4 => {
+            tr.final_count = it.len();
+            tr.fin_item = it.rev().next().map(|t| {
+                let r = conv(t, None);
+                (r.0, r.1)
+            });
+        }
+        5 => {
+            tr.final_count = it.len();
+            let mut n = 0usize;
+            let mut lastx = None;
+            for t in it {
+                n += 1;
+                let r = conv(t, None);
+                lastx = Some((r.0, r.1));
+            }
+            tr.fin_n = n;
+            tr.fin_item = lastx;
+        }
+        _ => {
+            tr.final_count = it.count();
+        }
+    }
     tr
 }
 
@@ -727,6 +779,26 @@ pub trait Subject<K: KeyLike>: Cache<K, TVal> + Sized {
 }
 
 type Lru<K, S> = RawLRU<K, TVal, LogCb, S>;
+type LruG<K, E, S> = RawLRU<K, TVal, E, S>;
+
+/// eviction callback of the RawLRU under test: the logging one, or the crate's no-op one
+/// (caches built by `From` / `FromIterator` / `with_hasher` have no callback)
+pub trait CbM: caches::OnEvictCallback + Clone + 'static {
+    const IS_LOG: bool;
+    fn mk() -> Self;
+}
+impl CbM for LogCb {
+    const IS_LOG: bool = true;
+    fn mk() -> Self {
+        LogCb
+    }
+}
+impl CbM for caches::DefaultEvictCallback {
+    const IS_LOG: bool = false;
+    fn mk() -> Self {
+        caches::DefaultEvictCallback
+    }
+}
 
 macro_rules! audit {
     ($r:expr, $lookup:expr) => {
@@ -738,18 +810,33 @@ macro_rules! audit {
     };
 }
 
-impl<K: KeyLike, S: HB> Subject<K> for Lru<K, S> {
+impl<K: KeyLike, E: CbM, S: HB> Subject<K> for LruG<K, E, S> {
     const KIND: Kind = Kind::Lru;
     fn build(cfg: &Cfg) -> Result<Self, String> {
+        if !E::IS_LOG {
+            // no callback: a conversion (`From<Vec>` / `collect()` / `From<&[..]>`) of the
+            // initial items (which may repeat keys), or `with_hasher`
+            if S::IS_DEFAULT {
+                let items: Vec<(K, TVal)> = cfg.init.iter().enumerate().map(|(i, k)| (K::mk(*k), TVal::new(1_000_000 + i as u64))).collect();
+                let c: RawLRU<K, TVal> = match cfg.a % 3 {
+                    0 => RawLRU::from(items),
+                    1 => items.into_iter().collect(),
+                    _ => RawLRU::from(&items[..]),
+                };
+                return Ok(cast::<RawLRU<K, TVal>, Self>(c));
+            }
+            let r: Result<RawLRU<K, TVal, caches::DefaultEvictCallback, S>, _> = RawLRU::with_hasher(cfg.a, S::mk(cfg.hk));
+            return cast::<_, Result<Self, caches::lru::CacheError>>(r).map_err(|e| format!("{:?}", e));
+        }
         // both constructors that take a callback
-        let r = if S::IS_DEFAULT {
+        let r: Result<Lru<K, S>, caches::lru::CacheError> = if S::IS_DEFAULT {
             // with_on_evict_cb is only defined for the default hash builder; go through a
             // helper so that the generic S unifies with it
             build_lru_default::<K, S>(cfg.a)
         } else {
             RawLRU::with_on_evict_cb_and_hasher(cfg.a, LogCb, S::mk(cfg.hk))
         };
-        r.map_err(|e| format!("{:?}", e))
+        cast::<_, Result<Self, caches::lru::CacheError>>(r).map_err(|e| format!("{:?}", e))
     }
     fn lists(&self, lookup: bool) -> Vec<(usize, Result<Vec<(&K, &TVal)>, String>)> {
         vec![(self.cap(), audit!(self, lookup))]
@@ -1213,6 +1300,8 @@ pub trait DynSubject {
     fn est_cleared(&self) -> Option<EstDigest>;
     fn reseed(&mut self, seeds: [u64; 4]);
     fn clone_box(&self) -> Result<Option<Box<dyn DynSubject>>, String>;
+    /// keys of every list as the *public* iterators report them (types that have iterators)
+    fn public_keys(&mut self) -> Option<Vec<Vec<u32>>>;
     /// everything reachable through well-formed lists, ignoring the audit verdict of the
     /// others (used after injected panics): (key object id, value object id, key)
     fn reachable(&self) -> Vec<(u64, u64, u32)>;
@@ -1314,6 +1403,20 @@ impl<K: KeyLike, C: Subject<K> + 'static> DynSubject for Wrap<K, C> {
         crate::talloc::in_lib(false);
         Ok(r?.map(|c| Box::new(Wrap::<K, C>(c, PhantomData)) as Box<dyn DynSubject>))
     }
+    fn public_keys(&mut self) -> Option<Vec<Vec<u32>>> {
+        if !matches!(C::KIND, Kind::Lru | Kind::TwoQ | Kind::Arc) {
+            return None;
+        }
+        let mut out = vec![];
+        for li in 0..C::KIND.list_names().len() {
+            let spec = IterSpec { list: li as u8, fam: Fam::Keys, steps: 64, pat: 0, write: false, clone_at: 255, fin: 0 };
+            match self.exec(&Op::Iter(spec), 0) {
+                Res::Iter(t) => out.push(t.steps.iter().filter_map(|s| s.item.and_then(|i| i.0)).collect()),
+                _ => return None,
+            }
+        }
+        Some(out)
+    }
     fn reachable(&self) -> Vec<(u64, u64, u32)> {
         let mut out = vec![];
         if let Ok(ls) = guarded(|| self.0.lists(false)) {
@@ -1366,6 +1469,12 @@ fn mk<K: KeyLike, C: Subject<K> + 'static>(cfg: &Cfg) -> Result<Box<dyn DynSubje
 
 fn mk_k<K: KeyLike>(cfg: &Cfg) -> Result<Box<dyn DynSubject>, String> {
     type D = caches::DefaultHashBuilder;
+    if cfg.kind == Kind::Lru && cfg.ctor == 3 {
+        return mk::<K, LruG<K, caches::DefaultEvictCallback, D>>(cfg);
+    }
+    if cfg.kind == Kind::Lru && cfg.no_cb {
+        return mk::<K, LruG<K, caches::DefaultEvictCallback, DynBH>>(cfg);
+    }
     if cfg.ctor == 1 {
         match cfg.kind {
             Kind::Lru => mk::<K, Lru<K, D>>(cfg),
